@@ -43,7 +43,7 @@ var engineBProps = map[string]*engineB{
 	"C06": {design: "4/C06"},
 	"C10": {design: "4/C10"},
 	"C11": {design: "4/C11"},
-	"C12": {design: "4/C12"},
+	"C12": {design: "4/C12", budget: map[string]float64{"quick": 110, "thorough": 900}},
 	"C13": {design: "4/C13", fine: []string{"bus/signal.go", "bus/proxy.go", "bus/client.go"}},
 	"C14": {design: "4/C14", fine: []string{"bus/object.go"}},
 	"C15": {design: "4/C15", fine: []string{"bus/directory/directory.go"}},
